@@ -20,6 +20,12 @@ CHECKS = {
     "C04": dict(cat="other", ref="6 C04",
                 text="mixed, hence 'other': for every response format the library parses, the spec encoder (standard's positions, spec/data_formats.py) builds the response from symbolic field values, the real parser is interpreted on it and every key must come back with the encoded value. Fixed formats (standard INQUIRY, VPD B0/B1/B2/B3/86/89, READ CAPACITY 10/16, PR IN READ RESERVATION / REPORT CAPABILITIES, READ DISC INFORMATION x3) are complete proofs over all field values, with and without trailing buffer space. List formats (VPD 00/80/83 with every designator kind and NAA format, MODE SENSE 6/10 with every page format, GET LBA STATUS, REPORT LUNS, REPORT PRIORITY, REPORT TARGET PORT GROUPS, READ ELEMENT STATUS, PR IN READ KEYS / READ FULL STATUS, TransportIDs, READ CD sector layouts) are proved for all field values over enumerated shapes (descriptor counts 0..3, thorough 0..8) -> bounded in the count; lengths honoured: nothing beyond the reported length may be returned",
                 note=TRUST + "two recorded known findings (MODE SENSE decoders ignore MODE DATA LENGTH and return one page; pinned by existing tests); iSCSI names and READ CD layouts are representatives; ATA signature / IDENTIFY configuration words, SOP TransportID and the PCIe routing designator are left unchecked (standard text not certain)"),
+    "C05": dict(cat="other", ref="6 C05",
+                text="the real constructors / marshallers of MODE SELECT 6/10 (every page format, one and two pages), PERSISTENT RESERVE OUT (basic list for every service action, SPEC_I_PT list with 0..3 TransportIDs of every protocol kind, REGISTER AND MOVE with and without TransportID), TransportIDs (iSCSI names of every length 0..40 and boundary lengths, thorough 0..223) and EXTENDED COPY LID1 / LID4 (0..2 identification-descriptor CSCDs with NAA/EUI designators and every device type spelling, 0..3 segment descriptors of every implemented type code given by code, name or description, inline data) are interpreted with all numeric values symbolic; the data-out buffer must equal the spec encoding byte for byte, every embedded length field is computed by the spec from the bytes that follow, and the CDB's PARAMETER LIST LENGTH equals len(dataout); refusals (foreign keys, unknown codes, non-zero LU ID TYPE, inconsistent TransportID) raise ValueError",
+                note=TRUST + "shapes (descriptor counts, kinds) are enumerated, hence 'other' rather than proof; iSCSI name contents are representatives"),
+    "C06": dict(cat="other", ref="6 C06",
+                text="for every structure with both directions (standard INQUIRY, VPD 80/83/86/B2/B3 incl. every designator kind, mode parameter lists 6/10, READ CAPACITY 10/16, GET LBA STATUS, REPORT LUNS, REPORT TARGET PORT GROUPS, READ ELEMENT STATUS, TransportIDs) over the shapes of C04 and all field values: unmarshall(marshall(d)) == d with both real functions back to back, marshall(unmarshall(b)) == b for the canonical response b built by the spec encoder, and read-modify-write of every field of every supported mode page changes exactly that field's bits",
+                note=TRUST + "shapes enumerated (bounded descriptor counts), hence 'other'; canonical means: reserved bits zero, PROTOCOL IDENTIFIER present only when valid, element descriptors in the marshaller's own length; multi-page mode parameter lists are excluded (recorded C04 finding)"),
     "C07": dict(cat="proof", ref="6 C07",
                 text="SCSIDevice.execute and ISCSIDevice.execute interpreted over stub bindings whose status byte (all 256 values) and sense buffer contents are symbolic, raw-sense capture on and off: normal return only for GOOD (or CHECK CONDITION reported through the raw sense attached on request), CHECK CONDITION raises the device's CheckCondition carrying key/ASC/ASCQ of exactly these bytes, each named status raises the error of that name (iSCSI), everything else raises; the facade half (errors propagate, nothing decoded) is discharged on the C13 units",
                 note=TRUST + "assumed contracts of sgio.execute / iscsi.Task / Context.command (listed in the evidence); on SG_IO the library never sees a status byte, so 'named error' applies to iSCSI only"),
